@@ -31,6 +31,10 @@ pub enum EK {
     DeferNested,
     /// defer a function that enters a critical section and keeps the guard beyond its own return
     DeferKeepGuard,
+    /// register `a + b` further participants on the default collector (handles kept by the thread)
+    RegExtra,
+    /// drop the `a + b` most recently registered of them (their entries become logically deleted)
+    UnregExtra,
 }
 
 #[derive(Serialize, Deserialize, Clone, Copy, Debug, PartialEq, Eq)]
@@ -79,6 +83,9 @@ struct EState {
     reactivations_sole: u64,
     nested_closure_runs: u64,
     kept_guards: u64,
+    extra_registered: u64,
+    extra_unregistered: u64,
+    unlinked_by: Vec<u64>,
     panics_caught: u64,
     inline_runs: u64,
     boxed_runs: u64,
@@ -264,7 +271,7 @@ thread_local! {
 fn sample(me: usize, _site: u32) {
     let g = circ::verif::default_collector().verif_epoch();
     if std::env::var_os("VCHECK_TRACE").is_some() {
-        eprintln!("step t{} {} global={} local={:?}", me, sched::site_name(_site), g >> 1, if REGISTERED.with(|r| r.get()) { circ::verif::local_state() } else { None });
+        eprintln!("step t{} {} global={} freed-records={} local={:?}", me, sched::site_name(_site), g >> 1, crate::POISONED_RECORDS.load(std::sync::atomic::Ordering::Relaxed), if REGISTERED.with(|r| r.get()) { circ::verif::local_state() } else { None });
     }
     let mine = if REGISTERED.with(|r| r.get()) { circ::verif::local_state().map(|s| s.0) } else { None };
     with(|e| {
@@ -382,6 +389,7 @@ struct Eth {
     tid: usize,
     guards: Vec<Guard>,
     inst: Option<u64>,
+    extra: Vec<circ::verif::LocalHandle>,
 }
 
 impl Eth {
@@ -570,6 +578,24 @@ impl Eth {
                     }
                 }
             }
+            EK::RegExtra => {
+                what = "reg-extra";
+                let n = op.a as usize + op.b as usize;
+                log(format!("t{}:reg_extra({})", self.tid, n));
+                for _ in 0..n {
+                    self.extra.push(circ::verif::default_collector().register());
+                }
+                with(|e| e.extra_registered += n as u64);
+            }
+            EK::UnregExtra => {
+                what = "unreg-extra";
+                let n = (op.a as usize + op.b as usize).min(self.extra.len());
+                log(format!("t{}:unreg_extra({})", self.tid, n));
+                for _ in 0..n {
+                    drop(self.extra.pop());
+                }
+                with(|e| e.extra_unregistered += n as u64);
+            }
             EK::DeferKeepGuard => {
                 if !self.guards.is_empty() {
                     what = "defer-keep-guard";
@@ -682,6 +708,24 @@ impl Eth {
     }
 }
 
+fn ebr_event(kind: u32, _addr: usize, _aux: usize) {
+    if kind == circ::verif::ev::REGISTRY_UNLINK {
+        let me = sched::tid();
+        if me != sched::NOT_WORKER {
+            with(|e| {
+                if me < e.unlinked_by.len() {
+                    e.unlinked_by[me] += 1;
+                }
+            });
+        }
+    }
+    if kind == circ::verif::ev::REGISTRY_UNLINK && std::env::var_os("VCHECK_TRACE").is_some() {
+        let st = circ::verif::local_state();
+        eprintln!("{}: unlink #{} entry {:#x} global {} self {:?}", tname(), with(|e| e.unlinked_by.iter().sum::<u64>()), _addr, circ::verif::global_epoch(), st);
+    }
+    sched::note_event(kind);
+}
+
 fn round_main() {
     let g = cs();
     g.flush();
@@ -712,6 +756,9 @@ pub fn run_case(case: &EbrCase) -> Report {
             reactivations_sole: 0,
             nested_closure_runs: 0,
             kept_guards: 0,
+            extra_registered: 0,
+            extra_unregistered: 0,
+            unlinked_by: vec![0; 8],
             panics_caught: 0,
             inline_runs: 0,
             boxed_runs: 0,
@@ -729,6 +776,8 @@ pub fn run_case(case: &EbrCase) -> Report {
     // silence the default panic message of generated panics
     std::panic::set_hook(Box::new(|_| {}));
     sched::set_step_hook(Some(sample));
+    circ::verif::set_event_hook(Some(ebr_event));
+    crate::QUARANTINE.store(true, std::sync::atomic::Ordering::SeqCst);
     sched::init(n, case.sched.clone());
     let mut handles = Vec::new();
     for t in 0..n {
@@ -744,6 +793,7 @@ pub fn run_case(case: &EbrCase) -> Report {
                         tid: t,
                         guards: Vec::new(),
                         inst: None,
+                        extra: Vec::new(),
                     };
                     for op in ops {
                         th.exec(op);
@@ -751,6 +801,7 @@ pub fn run_case(case: &EbrCase) -> Report {
                     // thread exit: remaining guards go away (innermost first), garbage stays in
                     // the local bag for `finalize` to hand over
                     sched::op_begin();
+                    th.extra.clear();
                     loop {
                         while let Some(g) = th.guards.pop() {
                             if th.guards.is_empty() && stash_len() == 0 {
@@ -785,6 +836,9 @@ pub fn run_case(case: &EbrCase) -> Report {
     }
     let summary = sched::finish();
     sched::set_step_hook(None);
+    if std::env::var_os("VCHECK_TRACE").is_some() {
+        with(|e| eprintln!("TRACE: {}", e.trace.join(" | ")));
+    }
     // every surviving thread (main) keeps collecting: everything must run within the bound
     let total = with(|e| e.clos.len() as u64);
     let bound = 64 + total;
@@ -824,6 +878,9 @@ pub fn run_case(case: &EbrCase) -> Report {
         rep.count("reactivations_on_sole_guard", e.reactivations_sole);
         rep.count("nested_closure_runs", e.nested_closure_runs);
         rep.count("guards_kept_beyond_deferred_function", e.kept_guards);
+        rep.count("extra_participants_registered", e.extra_registered);
+        rep.count("extra_participants_unregistered", e.extra_unregistered);
+        rep.count("max_registry_entries_unlinked_by_one_thread", e.unlinked_by.iter().cloned().max().unwrap_or(0));
         rep.count("panics_caught", e.panics_caught);
         rep.count("inline_closure_runs", e.inline_runs);
         rep.count("boxed_closure_runs", e.boxed_runs);
@@ -855,7 +912,7 @@ pub fn exec(prop: &str, v: &Value) -> Report {
         "C14" => get(&rep, "epoch_advances_while_some_thread_pinned") >= 2 && get(&rep, "repins_while_pinned") >= 1,
         "C15" => get(&rep, "executed_by_other_after_deferrer_exit") >= 1 || (case.private && get(&rep, "executed_at_collector_drop") >= 1),
         "C16" => get(&rep, "max_nesting") >= 2 && get(&rep, "reactivations") >= 1,
-        "C18" => get(&rep, "exits_while_peer_pinned") >= 1 && get(&rep, "epoch_advances_while_some_thread_pinned") >= 1,
+        "C18" => (get(&rep, "exits_while_peer_pinned") >= 1 && get(&rep, "epoch_advances_while_some_thread_pinned") >= 1) || get(&rep, "max_registry_entries_unlinked_by_one_thread") >= 64,
         _ => get(&rep, "executed") >= 1,
     };
     rep.count("c16_model_observations_tolerated", C16_SOFT_HITS.load(std::sync::atomic::Ordering::SeqCst));
@@ -865,6 +922,9 @@ pub fn exec(prop: &str, v: &Value) -> Report {
     }
     if get(&rep, "guards_kept_beyond_deferred_function") > 0 {
         rep.label("guard-kept-beyond-deferred-function");
+    }
+    if get(&rep, "max_registry_entries_unlinked_by_one_thread") >= 64 {
+        rep.label("one-scan-unlinks->=64-exited-participants");
     }
     if get(&rep, "nested_closure_runs") > 0 {
         rep.label("api-use-inside-deferred-function");
@@ -898,6 +958,9 @@ fn run_private(case: &EbrCase) -> Report {
             reactivations_sole: 0,
             nested_closure_runs: 0,
             kept_guards: 0,
+            extra_registered: 0,
+            extra_unregistered: 0,
+            unlinked_by: vec![0; 8],
             panics_caught: 0,
             inline_runs: 0,
             boxed_runs: 0,
@@ -953,6 +1016,7 @@ fn run_private(case: &EbrCase) -> Report {
                     g.flush();
                 }
             }
+            EK::RegExtra | EK::UnregExtra => {}
             EK::Defer | EK::Burst | EK::DeferNested | EK::DeferKeepGuard => {
                 if let Some(g) = guards[h].last() {
                     let k = if op.k == EK::Burst { 20 + (op.a as usize % 4) * 25 } else { 1 };
@@ -1402,6 +1466,69 @@ pub fn e2() -> BoxedStrategy<Value> {
             a.push(d(EK::DropGuard, 255, 0));
             a.push(d(EK::DropGuard, 0, 0));
             serde_json::to_value(EbrCase { align, threads: vec![a, b], sched, private: false }).unwrap()
+        })
+        .boxed()
+}
+
+/// E3: a registry scan that unlinks several bag-loads of exited participants while the epoch keeps
+/// advancing. Thread H registers many extra participants and retires them in stages; thread A runs
+/// a collection whose scan unlinks them (every unlink is a deferral: every 64th fills A's bag,
+/// seals it and may re-pin A); A is parked right after each seal (or after a generated number of
+/// unlinks), B runs collection rounds (advancing the epoch, freeing expired bags) in between.
+pub fn e3() -> BoxedStrategy<Value> {
+    (
+        0u8..20,
+        0u8..70,
+        (64u8..74, 64u8..74, 64u8..74, 64u8..74),
+        (0u32..8, 0u32..8, 0u32..8),
+        (1u8..3, 1u8..3, 1u8..4),
+        (any::<bool>(), 0u8..4),
+    )
+        .prop_map(|(align, pre, (n1, n2, n3, n4), (j1, j2, j3), (r1, r2, r3), (four, by_unlinks))| {
+            let d = |k: EK, a: u8, b: u8| EOp { k, a, b };
+            let (a_t, b_t, h_t) = (0u8, 1u8, 2u8);
+            let stages: Vec<u8> = if four { vec![n1, n2, n3, n4] } else { vec![n1, n2, n3] };
+            let total: usize = stages.iter().map(|x| *x as usize).sum();
+            let mut h = vec![d(EK::RegExtra, (total.min(255)) as u8, (total - total.min(255)) as u8)];
+            let mut a = vec![d(EK::Pin, 0, 0)];
+            for i in 0..pre {
+                a.push(d(EK::Defer, 0, i));
+            }
+            a.push(d(EK::Flush, 0, 0));
+            let a_ready = a.len() as u32;
+            a.push(d(EK::DropGuard, 0, 0));
+            let mut b = Vec::new();
+            let mut sched = Vec::new();
+            // everybody registers first (so that the extra participants are nearest to the head)
+            b.push(d(EK::Round, 0, 0));
+            sched.push(Directive { thread: b_t, until: Until::OpIndex(1) });
+            sched.push(Directive { thread: a_t, until: Until::OpIndex(a_ready) });
+            sched.push(Directive { thread: h_t, until: Until::OpIndex(1) });
+            let jit = [j1, j2, j3, j1];
+            let rounds = [r1, r2, r3, r3];
+            for (i, n) in stages.iter().enumerate() {
+                h.push(d(EK::UnregExtra, *n, 0));
+                sched.push(Directive { thread: h_t, until: Until::OpIndex(h.len() as u32) });
+                // A unlinks this stage and is parked in the middle of its scan
+                if by_unlinks == 0 {
+                    let nth = (*n as u32 + jit[i]).saturating_sub(4).max(1);
+                    sched.push(Directive { thread: a_t, until: Until::Event { kind: circ::verif::ev::REGISTRY_UNLINK, nth } });
+                } else {
+                    sched.push(Directive { thread: a_t, until: Until::Event { kind: circ::verif::ev::BAG_SEALED, nth: 1 } });
+                    if jit[i] > 3 {
+                        sched.push(Directive { thread: a_t, until: Until::Steps(jit[i] - 3) });
+                    }
+                }
+                for _ in 0..rounds[i] {
+                    b.push(d(EK::Round, 0, 0));
+                }
+                sched.push(Directive { thread: b_t, until: Until::OpIndex(b.len() as u32) });
+            }
+            sched.push(Directive { thread: a_t, until: Until::End });
+            for _ in 0..4 {
+                b.push(d(EK::Round, 0, 0));
+            }
+            serde_json::to_value(EbrCase { align, threads: vec![a, b, h], sched, private: false }).unwrap()
         })
         .boxed()
 }
